@@ -21,6 +21,10 @@ def cells(tier):
             out.append(cell(f"s{size} S2,T2 cancel1 stop({n})", sc, MON))
         sc = scen(pool(size, "SimpleTaskPool"), [[S("S", 3)], [["stop", 1], ["stop", 1]], [["stop_all"]]], outcomes=["ret", "exc"])
         out.append(cell(f"s{size} S3 stop1,stop1 stop_all", sc, MON))
+    for size in [2, 3]:
+        # a stopped task parked in its (slow, async) cancel callback when the next stop arrives
+        sc = scen(pool(size, "SimpleTaskPool", ecb="plain", ccb="slow", slow_ids=[1, 2]), [[S("S", 3)], [["stop", 1], ["stop", 1]], [["stop_all"]]], outcomes=["ret"])
+        out.append(cell(f"s{size} S3 stop1,stop1 stop_all slowccb", sc, MON))
     if not q:
         for size in [2, 3]:
             sc = scen(pool(size, "SimpleTaskPool", ecb="plain", ccb="plain"), [[S("S", 3)], [S("T", 2)], [cancel(rid("S", 0))], [["stop", 2]], [["stop", 1]]], outcomes=["ret", "exc"])
